@@ -74,7 +74,7 @@ def run(ctx):
     ctx.add("transitions", r0.generated)
     ntab = 3 if ctx.quick() else 30
     per = 70 if ctx.quick() else 350
-    ngraph = 2 if ctx.quick() else 20
+    ngraph = 2 if ctx.quick() else 6
     for t in range(ntab):
         wd = ctx.sub("tab%d" % t)
         alpha = rng.choice([gen.ALPHA6, [0x61, 0x62], list(range(256))])
